@@ -89,6 +89,11 @@ def finding_cases(pid, opts=None):
     return out
 
 
+# file names somebody might treat specially (dependencies, bundles, other extensions, no directory, no name at all, odd characters)
+FILE_NAMES = ["/srv/app/node_modules/pkg/index.js", "node_modules/x/y.js", "dist/bundle.min.js", "src/a.mjs", "src/a.cjs", "lib/a.ts", "a", ".hidden.js",
+              "dir with space/\u00e9t\u00e9.js", "C:\\app\\index.js", "/", "", "/app/lib/..", "./rel/./x.js", "x.js/", "/app/test/a.spec.js", "file:///app/a.js", "a.json", "/app/.pnpm/x@1/node_modules/x/i.js"]
+
+
 def catalogue_cases(seed, n, tag, cfg_fn=None, opts=None, reserved=None, prefix=None):
     import catalogue
     out = []
@@ -97,7 +102,7 @@ def catalogue_cases(seed, n, tag, cfg_fn=None, opts=None, reserved=None, prefix=
         cfg = cfg_fn(rng) if (cfg_fn and rng.random() < 0.4) else vlib.default_config()
         if prefix:
             cfg["localVarPrefix"] = prefix
-        out.append({"id": "cat-%s-%d" % (tag, i), "config": cfg, "calls": [{"code": code, "file": "cat.js"}], "opts": dict(opts or {})})
+        out.append({"id": "cat-%s-%d" % (tag, i), "config": cfg, "calls": [{"code": code, "file": FILE_NAMES[i % len(FILE_NAMES)] if i % 3 == 0 else "cat.js"}], "opts": dict(opts or {})})
     return out
 
 
